@@ -40,7 +40,7 @@ func (p *CircuitBreakerPolicy) CreateWrapper() (w Wrapper)
   flag allocates
   flag frame=unchecked
   requires validated-policy: cbDomain(p)
-  modifies gCBPolicy, clock
+  modifies gCBPolicy, allof("ghost:github.com/megaease/easegress/pkg/util/circuitbreaker.clock")
   ensures breaker-runs-with-the-configured-numbers: let q = ptr(gCBPolicy, "*circuitbreaker.Policy") in (gCBPolicy != 0 && q.FailureRateThreshold == p.FailureRateThreshold && q.SlowCallRateThreshold == p.SlowCallRateThreshold && q.SlidingWindowSize == p.SlidingWindowSize && q.PermittedNumberOfCallsInHalfOpen == p.PermittedNumberOfCallsInHalfOpen && q.MinimumNumberOfCalls == p.MinimumNumberOfCalls)
   ensures window-type-as-configured: let q = ptr(gCBPolicy, "*circuitbreaker.Policy") in (q.SlidingWindowType == (upperOf(p.SlidingWindowType) == "TIME_BASED" ? circuitbreaker.TimeBased : circuitbreaker.CountBased))
   ensures durations-as-configured-or-one-minute: let q = ptr(gCBPolicy, "*circuitbreaker.Policy") in ((p.WaitDurationInOpen == "" ==> q.WaitDurationInOpen == 60000000000) && (p.SlowCallDurationThreshold == "" ==> q.SlowCallDurationThreshold == 60000000000) && (p.WaitDurationInOpen != "" && durOK(p.WaitDurationInOpen) ==> q.WaitDurationInOpen == durOf(p.WaitDurationInOpen)) && (p.SlowCallDurationThreshold != "" && durOK(p.SlowCallDurationThreshold) ==> q.SlowCallDurationThreshold == durOf(p.SlowCallDurationThreshold)) && (p.MaxWaitDurationInHalfOpen != "" && durOK(p.MaxWaitDurationInHalfOpen) ==> q.MaxWaitDurationInHalfOpen == durOf(p.MaxWaitDurationInHalfOpen)) && (p.MaxWaitDurationInHalfOpen == "" ==> q.MaxWaitDurationInHalfOpen == 0))
